@@ -441,7 +441,7 @@ func ruleSoleWriter(w *World, r *Run, rule string) {
 				}
 				name := ""
 				if cc.IsInvoke() {
-					name = cc.Method.FullName()
+					name = canonPersistenceMethod(w, cc.Method)
 				} else if sc := cc.StaticCallee(); sc != nil {
 					name = funcName(sc)
 				} else if bi, ok := cc.Value.(*ssa.Builtin); ok && bi.Name() == "delete" {
@@ -1034,4 +1034,33 @@ func adapterMethods(w *World) (getLatest, update string) {
 		return names[0]
 	}
 	return pick("GetLatestCheckpoint"), pick("Update")
+}
+
+
+// canonPersistenceMethod names an invoked interface method after the persistence interface it narrows: a consumer-side
+// interface whose methods are a subset of LogStateWriteOps / LogStatePersistence calls the same Set / WriteOps.
+func canonPersistenceMethod(w *World, m *types.Func) string {
+	recv := m.Type().(*types.Signature).Recv()
+	if recv == nil {
+		return m.FullName()
+	}
+	it, ok := recv.Type().Underlying().(*types.Interface)
+	if !ok {
+		return m.FullName()
+	}
+	for _, an := range []string{"LogStateWriteOps", "LogStatePersistence"} {
+		o := w.lookup(pPersist, an)
+		if o == nil {
+			continue
+		}
+		if types.Identical(o.Type(), recv.Type()) {
+			return m.FullName()
+		}
+		if (m.Name() == "Set" || m.Name() == "WriteOps") && types.Implements(o.Type(), it) {
+			if am := ifaceMethod(w, pPersist, an, m.Name()); am != nil && types.Identical(am.Type().(*types.Signature).Params(), m.Type().(*types.Signature).Params()) {
+				return am.FullName()
+			}
+		}
+	}
+	return m.FullName()
 }
